@@ -94,10 +94,15 @@ type vHist struct {
 	onceSeen map[string]bool
 	// MaxSteps bounds do() calls (safety)
 	MaxSteps int
+	// app hashes of blocks committed by Gov / Restart steps since the last tx
+	pendingHashes [][]byte
+	// the network parameters the chain started with (the chain's profile
+	// follows parameter changes)
+	profile0 vProfile
 }
 
 func vNewHist(origin string, actorSeed int64, prof vProfile, rng *vs.Rand, res *vs.Result, mons ...vMonitor) *vHist {
-	h := &vHist{Origin: origin, c: vNewChain(actorSeed, prof), rng: rng, res: res, mons: mons, actorSeed: actorSeed, MaxSteps: 400}
+	h := &vHist{Origin: origin, c: vNewChain(actorSeed, prof), rng: rng, res: res, mons: mons, actorSeed: actorSeed, MaxSteps: 400, profile0: prof}
 	h.c.advance(1)
 	h.last = h.c.snapshot()
 	return h
@@ -167,7 +172,12 @@ func (h *vHist) doTx(note string, gap int, signer, claim *vActor, msgs ...sdk.Ms
 		h.stopped = true
 		return &vTxObs{Pre: h.last, Post: h.last, Signer: signer, Msgs: msgs}
 	}
-	hashes := h.c.advance(gap)
+	reqGap := gap
+	hashes := append(h.pendingHashes, h.c.advance(gap)...)
+	// blocks committed by Restart / Gov steps since the previous tx count
+	// towards the distance between the two transactions
+	gap += len(h.pendingHashes)
+	h.pendingHashes = nil
 	pre := h.last
 	preFresh := false
 	if gap > 0 || pre == nil {
@@ -176,7 +186,7 @@ func (h *vHist) doTx(note string, gap int, signer, claim *vActor, msgs ...sdk.Ms
 		pre = h.c.snapshot()
 		preFresh = true
 	}
-	step := vStep{Gap: gap, Signer: signer.Idx, Note: note, Height: h.c.height}
+	step := vStep{Gap: reqGap, Signer: signer.Idx, Note: note, Height: h.c.height}
 	if claim != nil {
 		step.BadSign = claim.Idx + 1
 	}
@@ -219,10 +229,9 @@ func (h *vHist) doTx(note string, gap int, signer, claim *vActor, msgs ...sdk.Ms
 // does (x/params proposal handler on the deliver state), gap blocks after the
 // previous step, and records it for replay.
 func (h *vHist) Gov(gap int, subspace, key, value string) error {
-	h.c.advance(gap)
+	h.pendingHashes = append(h.pendingHashes, h.c.advance(gap)...)
 	h.steps = append(h.steps, vStep{Gap: gap, Note: "gov", Gov: subspace + "/" + key + "=" + value, Height: h.c.height})
-	prop := paramproposal.NewParameterChangeProposal("verif", "verif", []paramproposal.ParamChange{paramproposal.NewParamChange(subspace, key, value)})
-	err := params.NewParamChangeProposalHandler(h.c.app.keeper.params)(h.c.ctx(), prop)
+	err := h.c.gov(subspace, key, value)
 	h.last = h.c.snapshot()
 	if err == nil {
 		for _, m := range h.mons {
@@ -240,10 +249,36 @@ type vGovMonitor interface {
 	OnGov(h *vHist, subspace, key, value string)
 }
 
+// gov applies a parameter change on this chain and keeps the chain's idea of
+// the network parameters (profile) in step with it.
+func (c *vChain) gov(subspace, key, value string) error {
+	prop := paramproposal.NewParameterChangeProposal("verif", "verif", []paramproposal.ParamChange{paramproposal.NewParamChange(subspace, key, value)})
+	if err := params.NewParamChangeProposalHandler(c.app.keeper.params)(c.ctx(), prop); err != nil {
+		return err
+	}
+	var coin sdk.Coin
+	switch subspace + "/" + key {
+	case "deployment/DeploymentMinDeposit":
+		if c.app.LegacyAmino().UnmarshalJSON([]byte(value), &coin) == nil && coin.Amount.IsInt64() {
+			c.profile.DepMinDeposit = coin.Amount.Int64()
+		}
+	case "market/BidMinDeposit":
+		if c.app.LegacyAmino().UnmarshalJSON([]byte(value), &coin) == nil && coin.Amount.IsInt64() {
+			c.profile.BidMinDeposit = coin.Amount.Int64()
+		}
+	case "market/OrderMaxBids":
+		var n uint32
+		if c.app.LegacyAmino().UnmarshalJSON([]byte(value), &n) == nil {
+			c.profile.OrderMaxBids = n
+		}
+	}
+	return nil
+}
+
 // Restart commits the open block and restarts the node.
 func (h *vHist) Restart() {
 	if h.c.open {
-		h.c.endBlock()
+		h.pendingHashes = append(h.pendingHashes, h.c.endBlock())
 	}
 	h.c.restart()
 	h.steps = append(h.steps, vStep{Note: "restart", Restart: true, Height: h.c.height})
@@ -258,7 +293,7 @@ func vTrunc(s string, n int) string {
 }
 
 func (h *vHist) Case() vHistCase {
-	return vHistCase{Profile: h.c.profile, ActorSeed: h.actorSeed, Origin: h.Origin, Steps: append([]vStep(nil), h.steps...)}
+	return vHistCase{Profile: h.profile0, ActorSeed: h.actorSeed, Origin: h.Origin, Steps: append([]vStep(nil), h.steps...)}
 }
 
 // Violation records a violation of the running property; the trigger class
